@@ -95,11 +95,15 @@ func runWorkers(s *prep.Scratch, o opts, cases int, maxS float64, extra ...strin
 		wg.Add(1)
 		go func(k, from, to int) {
 			defer wg.Done()
+			isolated := false
 			for attempt := 0; from < to && attempt < 20; attempt++ {
-				out := filepath.Join(outDir, fmt.Sprintf("w%d-%d.json", k, attempt))
+				out := filepath.Join(outDir, fmt.Sprintf("w%d-%d-%v.json", k, attempt, isolated))
 				args := []string{"run", "-prop", o.prop, "-seed", fmt.Sprint(o.seed), "-from", fmt.Sprint(from), "-to", fmt.Sprint(to),
 					"-out", out, "-tier", o.tier, "-max-s", fmt.Sprint(maxS)}
 				args = append(args, extra...)
+				if isolated {
+					args = append(args, "-isolate")
+				}
 				cmd := exec.Command(s.Worker, args...)
 				cmd.Dir = s.Dir
 				var eb bytes.Buffer
@@ -118,8 +122,17 @@ func runWorkers(s *prep.Scratch, o opts, cases int, maxS float64, extra ...strin
 					fatal2("worker %d exceeded its watchdog (%v s); output:\n%s", k, maxS*2+600, eb.String())
 				}
 				b, rerr := os.ReadFile(out)
+				if rerr != nil && !isolated {
+					// the worker process died in the middle of a build (Go runtime fatal error, real
+					// crash): repeat its range with every build in a process of its own, so that the
+					// dying build is observed as such instead of taking the worker with it
+					fmt.Printf("note: worker %d died (%v): %s\n      repeating cases %d..%d with one process per build\n", k, err, firstLineWith(eb.String(), "fatal error", "panic:", "signal"), from, to)
+					isolated = true
+					attempt--
+					continue
+				}
 				if rerr != nil {
-					fatal2("worker %d wrote no result (%v, %v); output:\n%s", k, err, rerr, eb.String())
+					fatal2("worker %d wrote no result (%v, %v); output:\n%s", k, err, rerr, tailStr(eb.String(), 4000))
 				}
 				var bo bsim.BatchOut
 				if jerr := json.Unmarshal(b, &bo); jerr != nil {
@@ -447,4 +460,15 @@ var assumptions = map[string][]string{
 
 var extraCoverage = map[string]map[string]any{
 	"C10": {"exhaustive_subspace": "single-fault space per world (every FS operation x applicable fault kind) is enumerated completely; reported as exhaustive=false because worlds are sampled"},
+}
+
+func firstLineWith(s string, keys ...string) string {
+	for _, l := range strings.Split(s, "\n") {
+		for _, k := range keys {
+			if strings.Contains(l, k) {
+				return strings.TrimSpace(l)
+			}
+		}
+	}
+	return "no diagnostic"
 }
